@@ -224,7 +224,16 @@ func encodeStream(s *Stream) ([]byte, Dict) {
 	for i := len(s.Chain) - 1; i >= 0; i-- {
 		switch s.Chain[i] {
 		case "FlateDecode", "Fl":
-			if s.Pred {
+			if s.Pred2 {
+				// TIFF predictor 2 (§7.4.4.4): 8-bit samples, one colour, rows of 8 bytes
+				const cols = 8
+				for len(data)%cols != 0 {
+					data = append(append([]byte(nil), data...), ' ')
+				}
+				data = filt.TIFFForward(data, cols, 1)
+				parms[i] = Dict{{"Predictor", Int(2)}, {"Columns", Int(cols)}}
+				anyParm = true
+			} else if s.Pred {
 				const cols = 4
 				for len(data)%cols != 0 {
 					data = append(append([]byte(nil), data...), ' ')
